@@ -188,24 +188,89 @@ def is_valid(pairs, nP, nS):
 
 # ------------------------------------------------------------------ the checks on one dataset
 class RowsSpy:
-    """observe the return value of typhon.collocations.common._rows_for_secondaries"""
+    """observe the return value of the private row-assignment helper(s) of
+    typhon.collocations.common (every module-level function whose name starts with `_rows_for`).
+    Purely diagnostic: when no helper can be wrapped (renamed, inlined, signature changed) the
+    observation is skipped; a failure of the hook never reaches the code under test."""
 
     def __init__(self):
-        import typhon.collocations.common as cc
-        self.cc = cc
         self.seen = []
-        self.orig = cc._rows_for_secondaries
+        self.patched = []
+        try:
+            import typhon.collocations.common as cc
+            self.cc = cc
+        except Exception:  # noqa
+            self.cc = None
 
     def __enter__(self):
-        def wrapped(primary):
-            r = self.orig(primary)
-            self.seen.append([int(x) for x in r])
-            return r
-        self.cc._rows_for_secondaries = wrapped
+        if self.cc is None:
+            return self
+        import types
+        for name, fn in list(vars(self.cc).items()):
+            if name.startswith("_rows_for") and isinstance(fn, types.FunctionType):
+                def wrapped(*a, _fn=fn, **k):
+                    r = _fn(*a, **k)
+                    try:
+                        self.seen.append([int(x) for x in r])
+                    except Exception:  # noqa
+                        pass
+                    return r
+                try:
+                    setattr(self.cc, name, wrapped)
+                    self.patched.append((name, fn))
+                except Exception:  # noqa
+                    pass
         return self
 
     def __exit__(self, *a):
-        self.cc._rows_for_secondaries = self.orig
+        for name, fn in self.patched:
+            setattr(self.cc, name, fn)
+
+
+def check_collapse_vars(ck, ds, out, gref, goth, custom, what_case):
+    """which variables a collapsed dataset must (not) contain, and on which dimensions:
+    reference group: every variable kept (time/lat/lon at the root), collocation dimension first and
+    renamed `collocation`; other group: `<var>_<collapser>` for every data variable with dims
+    (`collocation`, remaining dims in source order), its time/lat/lon and `__*` variables dropped;
+    variables of either group that do not live on the collocation dimension copied unchanged."""
+    fns = ["mean", "std", "number"] + (["sum", "first"] if custom else [])
+    bad = []
+    for name in ds.variables:
+        if "/" not in name:
+            continue
+        g, local = name.split("/", 1)
+        if g not in (gref, goth):
+            continue
+        v = ds[name]
+        cdim = f"{g}/collocation"
+        if cdim not in v.dims:
+            if name not in out.variables or tuple(out[name].dims) != tuple(v.dims) or not nan_equal(out[name].values, v.values):
+                bad.append(f"{name} (not on the collocation dimension) is not copied unchanged")
+            continue
+        rest = tuple(d for d in v.dims if d != cdim)
+        if g == gref:
+            oname = local if local in SKIP_LOCAL else name
+            if oname not in out.variables:
+                bad.append(f"reference variable {name} is missing (expected as {oname})")
+            elif tuple(out[oname].dims) != ("collocation",) + rest:
+                bad.append(f"{oname} has dims {tuple(out[oname].dims)}, expected {('collocation',) + rest}")
+            elif not nan_equal(out[oname].values, v.transpose(cdim, ...).values):
+                bad.append(f"reference variable {oname} changed")
+        elif local in SKIP_LOCAL or local.startswith("__"):
+            present = [o for o in out.variables if o == name or o.startswith(name + "_")]
+            if present:
+                bad.append(f"{present} must not appear (time/lat/lon/__* of the collapsed group are dropped)")
+        else:
+            for fn in fns:
+                oname = f"{name}_{fn}"
+                if oname not in out.variables:
+                    bad.append(f"{oname} is missing")
+                elif tuple(out[oname].dims) != ("collocation",) + rest:
+                    bad.append(f"{oname} has dims {tuple(out[oname].dims)}, expected {('collocation',) + rest}")
+            if name in out.variables:
+                bad.append(f"{name} of the collapsed group appears uncollapsed")
+    for b in bad[:3]:
+        ck.violation("collapse-vars", f"collapse(reference={gref}): {b}", what_case)
 
 
 def check_collapse(ck, ds, case, valid, use_model, tag, custom):
@@ -305,10 +370,11 @@ def check_collapse(ck, ds, case, valid, use_model, tag, custom):
                             if bad is None and custom:
                                 if float(got["sum"][j, c]) != float(sm):
                                     bad = (j, c, "custom collapser sum", float(got["sum"][j, c]), sm)
-                                f0 = vals[0] if vals else float("nan")
+                                # row 0 of the matrix handed to a custom collapser holds one partner of j
+                                # (which one depends on the internal slot numbering)
                                 g0 = float(got["first"][j, c])
-                                if not ((math.isnan(f0) and math.isnan(g0)) or f0 == g0):
-                                    bad = (j, c, "custom collapser first-row", g0, f0)
+                                if not any((math.isnan(v) and math.isnan(g0)) or v == g0 for v in vals):
+                                    bad = (j, c, "custom collapser row 0", g0, f"one of {vals[:8]}")
                             if bad:
                                 break
                         if bad:
@@ -328,13 +394,17 @@ def check_collapse(ck, ds, case, valid, use_model, tag, custom):
                 for local in SKIP_LOCAL:
                     if local not in out.variables or not nan_equal(out[local].values, ds[f"{gref}/{local}"].values):
                         ck.violation("collapse-reference", f"collapse(reference={gref}): root variable {local} is not the reference group's", what_case)
+        if valid and err is None:
+            check_collapse_vars(ck, ds, out, gref, goth, bool(custom), what_case)
         if not use_model:
             continue
         Pm, Sm = flat_rows(ds, groups[0])[0], flat_rows(ds, groups[1])[0]
         lines.append(f"collapse {ref} " + ds_tokens(pairs, Pm, Sm))
         expect.append(("collapse", ref, err, real_stats, layout, spy.seen, captured, R))
         u_est = len(set(int(x) for x in refidx))
-        if custom and err is None and captured.get("m") and n and (max(spy.seen[0]) + 1) * u_est <= 4000:
+        if not spy.seen and err is None:
+            ck.count("diag/row-helper-not-observed")
+        if custom and err is None and captured.get("m") and n and captured["m"][0].shape[0] * u_est <= 4000:
             lines.append(f"matrix {ref} " + ds_tokens(pairs, Pm, Sm))
             expect.append(("matrix", ref, captured["m"], layout, None, None, None, None))
     if not use_model or not lines:
@@ -352,10 +422,15 @@ def check_collapse(ck, ds, case, valid, use_model, tag, custom):
             parts = line.split(" | ")
             U, nrows = (int(x) for x in parts[1].split())
             mrows = [] if parts[2] == "-" else [int(x) for x in parts[2].split()]
+            # internal values: diagnostics only (the verdict rests on count / sum / std / rows below)
             if seen and seen[0] != mrows:
-                ck.disagree(f"collapse ref={ref}: row assignment model {mrows[:12]} vs code {seen[0][:12]}", what_case)
+                ck.count("diag/row-assignment-differs-from-model")
+                if not any(nt.startswith("diag: row assignment") for nt in ck.notes):
+                    ck.notes.append(f"diag: row assignment differs from the model, e.g. model {mrows[:12]} vs code {seen[0][:12]}")
             if captured.get("m") and captured["m"][0].shape[:2] != (nrows, U):
-                ck.disagree(f"collapse ref={ref}: bin matrix shape model {(nrows, U)} vs code {captured['m'][0].shape[:2]}", what_case)
+                ck.count("diag/bin-matrix-shape-differs-from-model")
+                if not any(nt.startswith("diag: bin matrix shape") for nt in ck.notes):
+                    ck.notes.append(f"diag: bin matrix shape model {(nrows, U)} vs code {captured['m'][0].shape[:2]}")
             stats = [tuple(int(x) for x in t.split(":")) for t in parts[3].split()] if len(parts) > 3 and parts[3] else []
             mv = parts[4].split() if len(parts) > 4 and parts[4] else []
             width = sum(w for _, w in layout)
@@ -404,8 +479,10 @@ def check_collapse(ck, ds, case, valid, use_model, tag, custom):
                 ck.disagree(f"collapse ref={ref}: {bad}", what_case)
         else:
             _, _, mats, layout = ex[:4]
+            # the bin matrix is an internal value: its identity with the model is a diagnostic, the
+            # verdict rests on the statistics (an extra all-NaN row, another slot numbering are harmless)
             if not line.startswith("ok"):
-                ck.disagree(f"matrix ref={ref}: model {line[:40]}", what_case)
+                ck.count("diag/bin-matrix-differs-from-model")
                 continue
             parts = line.split(" | ")
             nrows, U = (int(x) for x in parts[1].split())
@@ -434,7 +511,11 @@ def check_collapse(ck, ds, case, valid, use_model, tag, custom):
                     break
                 col0 += wdt
             if bad:
-                ck.disagree(f"bin matrix ref={ref}: {bad}", what_case)
+                ck.count("diag/bin-matrix-differs-from-model")
+                if not any(nt.startswith("diag: bin matrix ref") for nt in ck.notes):
+                    ck.notes.append(f"diag: bin matrix ref={ref}: {bad}")
+            else:
+                ck.count("diag/bin-matrix-identical-to-model")
 
 
 def real_expand_rows(ds, e, groups):
@@ -477,6 +558,12 @@ def check_expand(ck, ds, case, valid, use_model, tag):
                             ck.violation("expand-rows", f"expand row {k} of {name} is not the value of point {int(pairs[i, k])} "
                                          f"(pair {[int(pairs[0, k]), int(pairs[1, k])]})", what_case)
                             break
+    if err is None and valid:
+        for name in ds.variables:
+            g = name.split("/", 1)[0]
+            if g in groups and f"{g}/collocation" not in ds[name].dims:
+                if name not in e.variables or tuple(e[name].dims) != tuple(ds[name].dims) or not nan_equal(e[name].values, ds[name].values):
+                    ck.violation("expand-vars", f"expand changed or lost {name} (not on the collocation dimension)", what_case)
     if use_model:
         P, S = flat_rows(ds, groups[0])[0], flat_rows(ds, groups[1])[0]
         line = ck.driver(["expand " + ds_tokens(pairs, P, S)])[0]
@@ -690,6 +777,10 @@ def gen_ds(rng, layout, size, style=None, sort=None, idbase=0):
             v["z"] = {"dims": [f"{g}/collocation", chdim, f"{g}/level"], "data": gen_values(rng, (npts, C, L), 9, layout["nan"])}
         if layout["hidden"]:
             v["__idx"] = {"dims": [f"{g}/collocation"], "data": [i for i in range(npts)]}
+        if layout.get("nc"):      # variables that do not live on the collocation dimension
+            v["meta"] = {"dims": [], "data": 7 + base}
+            if C:
+                v["freq"] = {"dims": [chdim], "data": [89 + 7 * c for c in range(C)]}
         vs[g] = v
     return {"groups": [g0, g1], "pairs": pairs, "n": {g0: nP, g1: nS}, "vars": vs, "style": style,
             "t0": rng.randint(0, 1000)}
@@ -703,6 +794,8 @@ def malform(rng, d):
     def grow(g, k=1):
         old = d["n"][g]
         for name, v in d["vars"][g].items():
+            if f"{g}/collocation" not in v["dims"]:
+                continue
             ax = v["dims"].index(f"{g}/collocation")
             if ax == 0:
                 proto = v["data"][0]
@@ -753,7 +846,9 @@ def run_ds_case(ck, case, use_model):
         sub = {"op": "ds", "list": [d], "alias": None, "collapser": case.get("collapser", False)}
         check_dataset(ck, ds, sub, dvalid[i], use_model, tag=f"[{i}] ", custom=case.get("collapser", False))
     cc = None
-    if valid or case.get("alias") is not None:
+    has_nc = any(not any(dm.endswith("/collocation") for dm in v["dims"]) for d in case["list"] for g in d["groups"]
+                 for v in d["vars"][g].values())
+    if (valid or case.get("alias") is not None) and not has_nc:
         if all(len(d["pairs"][0]) for d in case["list"]):
             cc = check_concat(ck, dss, case, valid, use_model, alias=case.get("alias"))
     if cc is not None and valid and case.get("alias") is None and len(dss) > 1:
@@ -770,35 +865,93 @@ def run_ds_case(ck, case, use_model):
 
 class PairInjector:
     """make Collocator.spatial_search return harness-chosen pairs, and record what reaches
-    Collocator._create_return (wrapping from outside; /repo is not touched)"""
+    Collocator._create_return (wrapping from outside; /repo is not touched).
+
+    Both hooks are tolerant: they accept any signature (`*args, **kwargs`), look the observed
+    arguments up by name or by type, and are skipped when the private method does not exist or is
+    not a plain method.  `injecting` / `observing` say which hooks are in place; a hook that
+    cannot do its job only loses an observation, it never produces a verdict."""
 
     def __init__(self, inject=None):
-        from typhon.collocations.collocator import Collocator
-        self.C = Collocator
         self.inject = inject
         self.original_pairs = None
         self.xP = self.xS = None
+        self.injecting = self.observing = False
+        self.saved = []
+        try:
+            from typhon.collocations.collocator import Collocator
+            self.C = Collocator
+        except Exception:  # noqa
+            self.C = None
+
+    def _plain_method(self, name):
+        import inspect
+        import types
+        if self.C is None:
+            return None
+        try:
+            fn = inspect.getattr_static(self.C, name)
+        except AttributeError:
+            return None
+        return fn if isinstance(fn, types.FunctionType) else None
+
+    def _observe(self, fn, args, kwargs):
+        import inspect
+        import numpy as np
+        import xarray as xr
+        try:
+            bound = inspect.signature(fn).bind(*args, **kwargs).arguments
+        except TypeError:
+            bound = {}
+        values = list(bound.values()) if bound else list(args) + list(kwargs.values())
+        op = bound.get("original_pairs")
+        if op is None:
+            op = next((v for v in values if isinstance(v, np.ndarray) and v.ndim == 2 and v.shape[0] == 2
+                       and v.dtype.kind in "iu"), None)
+        dsets = [bound.get("primary"), bound.get("secondary")]
+        if not all(isinstance(d, xr.Dataset) for d in dsets):
+            dsets = [v for v in values if isinstance(v, xr.Dataset)][:2]
+        if op is None or len(dsets) != 2 or any("x" not in d.variables for d in dsets):
+            return
+        op = np.asarray(op)
+        if op.ndim != 2 or op.shape[0] != 2 or (op.size and op.dtype.kind not in "iu"):
+            return
+        self.xP = np.array(dsets[0]["x"].values, copy=True)      # the prepared (time-sorted) data
+        self.xS = np.array(dsets[1]["x"].values, copy=True)
+        self.original_pairs = np.array(op, dtype=int, copy=True)
 
     def __enter__(self):
         import numpy as np
-        self.o_ss, self.o_cr = self.C.spatial_search, self.C._create_return
         me = self
-        if self.inject is not None:
-            def ss(self_, lat1, lon1, lat2, lon2, max_distance):
+        if self.inject is not None and self._plain_method("spatial_search") is not None:
+            def ss(self_, *a, **k):
                 p = np.array(me.inject, dtype=int).reshape(2, -1)
                 return p, np.arange(p.shape[1]) * 1.0
+            self.saved.append(("spatial_search", self._plain_method("spatial_search")))
             self.C.spatial_search = ss
-
-        def cr(self_, primary, secondary, pn, sn, original_pairs, *a, **k):
-            me.original_pairs = np.array(original_pairs, copy=True)
-            me.xP = np.array(primary["x"].values, copy=True)      # the prepared (time-sorted) data
-            me.xS = np.array(secondary["x"].values, copy=True)
-            return me.o_cr(self_, primary, secondary, pn, sn, original_pairs, *a, **k)
-        self.C._create_return = cr
+            self.injecting = True
+        cr0 = self._plain_method("_create_return")
+        if cr0 is not None:
+            def cr(*a, **k):
+                try:
+                    me._observe(cr0, a, k)
+                except Exception:  # noqa  (observation lost, nothing else)
+                    me.original_pairs = None
+                return cr0(*a, **k)
+            self.saved.append(("_create_return", cr0))
+            self.C._create_return = cr
+            self.observing = True
         return self
 
     def __exit__(self, *a):
-        self.C.spatial_search, self.C._create_return = self.o_ss, self.o_cr
+        for name, fn in self.saved:
+            setattr(self.C, name, fn)
+
+
+def raised_in(e, funcname):
+    """does the traceback of e pass through a function of that name?"""
+    import traceback
+    return any(f.name == funcname for f in traceback.extract_tb(e.__traceback__))
 
 
 def point_ds(n, lat, lon, t, bt, idbase, grid=None):
@@ -842,14 +995,24 @@ def run_collocate_case(ck, case, use_model):
         except Exception as e:  # noqa
             if case["op"] == "collocate" and case.get("interval_s") is None and isinstance(e, IndexError) \
                     and "must be of integer" in str(e) and spy.original_pairs is None:
-                # collocate(max_distance only) without any hit indexes with the float array `no_pairs`
-                # before a result exists: not a statement of C13 (belongs to C04); recorded in notes/C13.md
+                # collocate(max_distance only) without any hit indexed with the float array `no_pairs`
+                # before a result exists: not a statement of C13 (C04; fixed upstream by ebdc3b5)
                 ck.case(kind="collocate/no-hit-indexerror(C04)")
+                return
+            if case["op"] == "inject" and not raised_in(e, "_create_return"):
+                # the injected search result no longer fits the (private) interface: the hook failed,
+                # not the code under test
+                ck.count("diag/injection-hook-failed")
+                ck.case(kind="inject/hook-failed")
                 return
             ck.violation("collocate-exception", f"collocate raised {type(e).__name__}: {e}", what_case)
             ck.case(kind=f"{case['op']}/exception")
             return
+    if case["op"] == "inject" and not spy.injecting:
+        ck.count("diag/injection-hook-not-installed")
     op = spy.original_pairs
+    if op is None:
+        ck.count("diag/compaction-input-not-observed")
     if res is None:
         if op is not None and op.size:
             ck.violation("compact-invalid", f"collocate returned nothing for {op.shape[1]} original pairs", what_case)
@@ -862,6 +1025,9 @@ def run_collocate_case(ck, case, use_model):
     ok = check_valid(ck, res, case, use_model, "", "compact")
     pairs = np.asarray(res["Collocations/pairs"].values)
     n = pairs.shape[1]
+    if op is not None and (op.shape[1] != n or (op.size and (op[0].max() >= len(spy.xP) or op[1].max() >= len(spy.xS)))):
+        op = None                      # what the hook saw is not the compaction input: observation lost
+        ck.count("diag/compaction-input-not-observed")
     # oracle: pair k still joins the same two original points (x carries the original index)
     if ok and op is not None:
         xp, xs = res["primary/x"].values, res["secondary/x"].values
@@ -896,7 +1062,7 @@ def run_collocate_case(ck, case, use_model):
         if n <= 400:
             check_concat(ck, [res, res], case, True, use_model)
     mult = max(np.bincount(pairs[0]).max(), np.bincount(pairs[1]).max()) if n else 0
-    ck.case(key=json.dumps(op.tolist())[:4000] if n > 1 else None,
+    ck.case(key=json.dumps((op if op is not None else pairs).tolist())[:4000] if n > 1 else None,
             kind=f"{case['op']}/" + ("multi" if mult > 1 else "one2one") + ("/gridded" if P.get("grid") or S.get("grid") else ""),
             sample={"op": case["op"], "original_pairs": op[:, :10].tolist() if op is not None else None, "new_pairs": pairs[:, :10].tolist()})
 
@@ -942,6 +1108,7 @@ def gen_ds_case(rng, big):
         k = rng.choice([1, 2])
         layout["z"] = False
         layout["C"] = min(layout["C"], 3)
+    layout["nc"] = k == 1 and rng.random() < 0.5     # (xr.concat would broadcast them along the collocation dim)
     lst = []
     for i in range(k):
         s = size if i == 0 else pick_size(rng, 0.0)
